@@ -19,6 +19,10 @@ claimed = {
    text="Decides from source: the constant formats reaching Sprintf in decToMinDec have the DD-MM.MMMMH / DDD-MM.MMMMH shape on the latitude resp. longitude edge; the hemisphere letter, decided by enumerating the finite set of cases the function can distinguish (coordinate kind x sign of the value, which is only inspected through comparisons with zero) and following the branch structure to the constant reaching %c; NewCourse formats %03d of a value proven within [0,359] and the stringer appends M/T on the right edge; optional pointer fields are dereferenced only under their non-nil test; body, subject and recipient are set non-empty on every path. Does not decide numeric accuracy nor minutes < 60 (floating-point rounding: 10.9999999 prints 10-60.0000N, a value property).",
    technique="fmt verb parsing of constant formats per phi edge; abstract case enumeration over branch conditions; interval proof on SSA; dominance of non-nil tests",
    ref="DESIGN.md section 4, C20"),
+ "C05": dict(
+   text="Decides from source, against reference tables embedded in the checker (FBB protocol document shipped in docs/F6FBB-B2F): framing bytes, block size, chunk-size range, offset limit, SID features, answer constants, checksum line format; an arm for every FBB answer letter in both cases with the prescribed class (H -> Defer is a recorded known finding, pinned by an existing test); only answer constants or handler answers can be stored in a proposal's answer; proposal line field count agrees with the parser (5), one answer byte per proposal; precedence sort stable and after the size sort; sender frame markers all dispatched by the receiver, zero length byte read as 256, two NUL terminators on both sides; emitted block proven <= 5 proposals; non-B2 peers refused. Does not decide transcript-level conformance (checksum values, turn-taking, comment handling) - that needs an independent peer as oracle.",
+   technique="constant and switch-arm tables compared with embedded protocol reference tables; writer/reader sibling agreement on SSA; length proof for the emitted block",
+   ref="DESIGN.md section 4, C05"),
 }
 
 not_applicable = {
